@@ -1083,3 +1083,59 @@ func TestC13WebSocketIdlePing(t *testing.T) {
 		col.Case(true, hx.JSON(desc), func() any { return desc })
 	})
 }
+
+// TestC13WebSocketFloodingPeer: the peer stops reading and floods the relay with frames that
+// each earn a rejection (large invalid messages, whose NOTICE echoes them). The blocked write
+// is a rejection, not handler output: the peer is dropped after the send timeout all the
+// same, for every ping setting.
+func TestC13WebSocketFloodingPeer(t *testing.T) {
+	col := ev.For("C13").SetRule(c13Rule)
+	rapid.Check(t, func(t *rapid.T) {
+		sendTimeout := time.Duration(rapid.IntRange(150, 400).Draw(t, "send_timeout_ms")) * time.Millisecond
+		for _, ping := range []time.Duration{0, time.Hour} {
+			opt := openOptions()
+			opt.SendTimeout = sendTimeout
+			opt.PingDuration = ping
+			desc := map[string]any{"send_timeout_ms": sendTimeout.Milliseconds(), "ping": ping.String(), "peer": "never reads, floods 60 kB invalid REQs", "handler": "idle"}
+			h := newRecHandler()
+			rig := newWSRig(opt, h)
+			c, err := dial(rig.url)
+			if err != nil {
+				rig.close()
+				t.Fatalf("dial: %v", err)
+			}
+			junk := []byte(`["REQ","flood",{"ids":["` + strings.Repeat("zz", 30000) + `"]}]`)
+			stop := make(chan struct{})
+			go func() {
+				for {
+					select {
+					case <-stop:
+						return
+					default:
+					}
+					// a plain blocking write: a write that times out would make the client library
+					// close the connection itself
+					if err := c.Write(context.Background(), websocket.MessageText, junk); err != nil {
+						return
+					}
+				}
+			}()
+			bound := sendTimeout + 4*time.Second
+			dropped := false
+			select {
+			case <-h.ends:
+				dropped = true
+			case <-time.After(bound):
+			}
+			close(stop)
+			c.CloseNow()
+			rig.close()
+			if !dropped {
+				hx.Fail(t, ev.Failure{Property: "C13", Signature: "stalled-peer-not-dropped", Clause: "a WebSocket peer that stops reading is dropped once a write has been blocked for the send timeout, whatever the other relay options are (the blocked write is a rejection of the peer's own input)",
+					Case: desc, Observed: fmt.Sprintf("session still running %v after the flood started", bound), Expected: "ended within send timeout + 4 s"})
+			}
+			col.Label("flooding-peer:ping=" + ping.String())
+			col.Case(true, hx.JSON(desc), func() any { return desc })
+		}
+	})
+}
